@@ -83,6 +83,8 @@ def make_node(d, name):
         return N.Delay(delay=d["delay"], name=name)
     if k == "nvar":
         return N.NVAR(delay=d["delay"], order=d["order"], strides=d["strides"], name=name)
+    if k == "ridge":
+        return N.Ridge(ridge=d["ridge"], input_bias=d["bias"], name=name)
     if k == "plainlinear":
         from reservoirpy.node import Node
         W = np.array(d["Wout"], dtype=float).reshape(d["in_dim"], d["out_dim"])
